@@ -395,6 +395,8 @@ impl Gate {
                                 self.id()
                             );
                         }
+                        #[cfg(feature = "verif-hooks")]
+                        crate::verif::gate::ev("process.closed", None);
                         return Err(Terminated);
                     }
                 }
@@ -414,6 +416,12 @@ impl Gate {
                     command
                 );
             }
+
+            #[cfg(feature = "verif-hooks")]
+            crate::verif::gate::ev(
+                verif_hooks::cmd_name(&command),
+                verif_hooks::cmd_id(&command),
+            );
 
             match command {
                 GateCommand::AttachClone { clone_id, tx } => {
@@ -675,7 +683,11 @@ impl Gate {
                 self.id()
             );
         }
+        #[cfg(feature = "verif-hooks")]
+        crate::verif::gate::ev("update.begin", None);
         for (uuid, item) in self.updates.guard().iter() {
+            #[cfg(feature = "verif-hooks")]
+            crate::verif::gate::ev("update.deliver", Some(*uuid));
             match (&item.queue, &item.direct) {
                 (Some(sender), None) => {
                     if let Some(tracer) = &self.tracer {
@@ -745,6 +757,9 @@ impl Gate {
             );
         }
 
+        #[cfg(feature = "verif-hooks")]
+        crate::verif::gate::ev("update.end", None);
+
         // if sender_lost {
         //     let updates = self.updates.load();
         //     updates.retain(|_, item| item.queue.is_some());
@@ -771,9 +786,13 @@ impl Gate {
     fn suspension(&self, slot: Uuid, suspend: bool) {
         if suspend {
             if let Some(removed) = self.updates.remove(&slot) {
+                #[cfg(feature = "verif-hooks")]
+                crate::verif::gate::ev("suspension.mid", Some(slot));
                 self.suspended.insert(slot, removed);
             }
         } else if let Some(removed) = self.suspended.remove(&slot) {
+            #[cfg(feature = "verif-hooks")]
+            crate::verif::gate::ev("suspension.mid", Some(slot));
             self.updates.insert(slot, removed);
         }
     }
@@ -811,6 +830,9 @@ impl Gate {
             self.updates.insert(slot, update_sender.clone());
         }
 
+        #[cfg(feature = "verif-hooks")]
+        crate::verif::gate::ev("subscribe.inserted", Some(slot));
+
         let subscription = SubscribeResponse { slot, receiver };
 
         if let Err(subscription) = response.send(subscription) {
@@ -830,6 +852,8 @@ impl Gate {
 
     async fn unsubscribe(&self, slot: Uuid) {
         self.suspended.remove(&slot);
+        #[cfg(feature = "verif-hooks")]
+        crate::verif::gate::ev("unsubscribe.mid", Some(slot));
         self.updates.remove(&slot);
         self.notify_clones(GateCommand::FollowUnsubscribe { slot })
             .await;
@@ -913,6 +937,8 @@ impl Clone for Gate {
                     cloned_name, clone_txt, copied_id, clone_id
                 );
             }
+            #[cfg(feature = "verif-hooks")]
+            crate::verif::gate::ev("clone.attach_sent", Some(saved_clone_id));
         });
 
         gate
@@ -1460,6 +1486,8 @@ impl Link {
             self.unit_status = UnitStatus::Gone;
             return Err(UnitStatus::Gone);
         }
+        #[cfg(feature = "verif-hooks")]
+        crate::verif::gate::ev("link.connect.sent", None);
         let sub = match rx.await {
             Ok(sub) => sub,
             Err(_) => {
@@ -1818,6 +1846,87 @@ struct SubscribeResponse {
 
     /// The update receiver for this subscription.
     receiver: Option<UpdateReceiver>,
+}
+
+//------------ Verification hooks ---------------------------------------------
+
+/// Add-only accessors for the external verification harness (feature
+/// `verif-hooks`); re-exported by `crate::verif::gate`.
+#[cfg(feature = "verif-hooks")]
+pub mod verif_hooks {
+    use super::*;
+
+    /// Event name announced right before a command is handled by `process()`.
+    pub(super) fn cmd_name(cmd: &GateCommand) -> &'static str {
+        match cmd {
+            GateCommand::ReportLinks { .. } => "cmd.report_links",
+            GateCommand::Suspension { suspend: true, .. } => "cmd.suspend",
+            GateCommand::Suspension { suspend: false, .. } => "cmd.unsuspend",
+            GateCommand::Subscribe { .. } => "cmd.subscribe",
+            GateCommand::Unsubscribe { .. } => "cmd.unsubscribe",
+            GateCommand::FollowSubscribe { .. } => "cmd.follow_subscribe",
+            GateCommand::FollowUnsubscribe { .. } => "cmd.follow_unsubscribe",
+            GateCommand::Reconfigure { .. } => "cmd.reconfigure",
+            GateCommand::FollowReconfigure { .. } => "cmd.follow_reconfigure",
+            GateCommand::Trigger { .. } => "cmd.trigger",
+            GateCommand::Terminate => "cmd.terminate",
+            GateCommand::AttachClone { .. } => "cmd.attach_clone",
+            GateCommand::DetachClone { .. } => "cmd.detach_clone",
+        }
+    }
+
+    /// The slot or clone id a command refers to, if any.
+    pub(super) fn cmd_id(cmd: &GateCommand) -> Option<Uuid> {
+        match cmd {
+            GateCommand::Suspension { slot, .. }
+            | GateCommand::Unsubscribe { slot }
+            | GateCommand::FollowSubscribe { slot, .. }
+            | GateCommand::FollowUnsubscribe { slot } => Some(*slot),
+            GateCommand::AttachClone { clone_id, .. }
+            | GateCommand::DetachClone { clone_id } => Some(*clone_id),
+            _ => None,
+        }
+    }
+
+    /// The slots currently in `updates` and in `suspended` (one load each).
+    pub fn gate_slots(gate: &Gate) -> (Vec<Uuid>, Vec<Uuid>) {
+        let u = gate.updates.guard().iter().map(|(k, _)| *k).collect();
+        let s = gate.suspended.guard().iter().map(|(k, _)| *k).collect();
+        (u, s)
+    }
+
+    /// Number of clones currently registered with a root gate.
+    pub fn gate_clone_count(gate: &Gate) -> usize {
+        match &gate.state {
+            GateState::Normal(state) => state.clone_senders.len(),
+            GateState::Clone(_) => 0,
+        }
+    }
+
+    /// The id of a gate clone (None for a root gate).
+    pub fn gate_clone_id(gate: &Gate) -> Option<Uuid> {
+        if gate.is_clone() {
+            Some(gate.clone_id())
+        } else {
+            None
+        }
+    }
+
+    /// Sends `Suspension { suspend: false }` for a connected link (the
+    /// gate-side handling exists, no public Link method sends it).
+    pub async fn link_unsuspend(link: &mut Link) {
+        link.request_suspend(false).await
+    }
+
+    /// Sends `Suspension { suspend: false }` for a connected direct link.
+    pub async fn direct_link_unsuspend(link: &mut DirectLink) {
+        link.0.request_suspend(false).await
+    }
+
+    /// The queue link inside a direct link (for `close()` / `query()`).
+    pub fn direct_link_inner(link: &mut DirectLink) -> &mut Link {
+        &mut link.0
+    }
 }
 
 //------------ Tests ---------------------------------------------------------
